@@ -159,7 +159,13 @@ func (x *Exec) evalInstr(fr *Frame, st *State, in ssa.Value) (Val, bool) {
 		ln := x.value(fr, st, in.Len)
 		cp := x.value(fr, st, in.Cap)
 		sl := in.Type().Underlying().(*types.Slice)
-		x.oblige(st, "SAFE", "makeslice("+x.posText(in.Pos())+")", And(Le(IntLit(0), ln.T), Le(ln.T, cp.T)), "makeslice: len out of range")
+		// make panics for a negative length, a capacity below the length, and a
+		// capacity beyond what can be allocated at all (maxAlloc, 2^48 bytes on the
+		// 64-bit targets; existing slices are assumed within that limit by their
+		// type's range fact). The bound checked here, 2^62 elements, is far above
+		// any sum of sizes of existing objects and far below an unconstrained
+		// 64-bit integer (a size taken from untrusted input).
+		x.oblige(st, "SAFE", "makeslice("+x.posText(in.Pos())+")", And(Le(IntLit(0), ln.T), Le(ln.T, cp.T), Le(cp.T, Term{"4611686018427387904", "Int"})), "makeslice: len or cap out of range")
 		st.assume(And(Le(IntLit(0), ln.T), Le(ln.T, cp.T)))
 		return Val{T: x.te.SliceMake(in.Type(), constArray("Int", x.te.Zero(sl.Elem())), ln.T, cp.T, False), Typ: in.Type()}, true
 
